@@ -19,7 +19,7 @@ from core.report import Result
 from . import c01, c03
 from .common import where
 from .tables import (
-    DETECTOR, EXPLICIT_QUERY, LEGAL_POINTS, VIOLATIONS, Scenario, bucket_wiring, demand_run, parse_language_doc, plain_mode, point_name, run_scenario,
+    EXPLICIT_QUERY, LEGAL_POINTS, Scenario, bucket_wiring, demand_run, parse_language_doc, plain_detector_class, plain_mode, point_name, run_scenario, violations_class,
 )
 
 
@@ -57,8 +57,8 @@ def run(repo: Repo) -> Result:
     res.trusted_base = ["C01's table extraction (rules/tables.py, rules/absint.py)", "C15 (evaluation is a function of its arguments)"]
     markers, _sem = parse_language_doc(repo)  # the oracle must still be readable (fail closed otherwise)
     grv, buckets = bucket_wiring(repo, None)
-    viol = repo.cls(VIOLATIONS, "RuleViolations")
-    det = repo.cls(DETECTOR, "RuleViolationDetector")
+    viol = violations_class(repo)
+    det = plain_detector_class(repo)
 
     def helper_of(field: str):
         b = next((x for x in buckets if x.field == field), None)
